@@ -33,6 +33,7 @@ func genC19(c *Ctx) {
 			if r%3 == 0 {
 				c.Case(fmt.Sprintf("bls-after-rejected/g=%d", g), fmt.Sprintf("expect ok #blsrej %d %d", g, r), mixBLSAfterRejected(c, g, r))
 				c.Case(fmt.Sprintf("bls-distinct-inputs/g=%d", g), fmt.Sprintf("expect ok #blsdist %d %d", g, r), mixBLSDistinctInputs(c, g))
+				c.Case(fmt.Sprintf("bls-many-messages/g=%d", g), fmt.Sprintf("expect ok #blsmany %d %d", g, r), mixBLSManyMessages(c, g))
 			}
 		}
 	}
@@ -349,6 +350,76 @@ func mixBLSDistinctInputs(c *Ctx, g int) string {
 	for i, j := range jobs {
 		if r := round(j); r != "" {
 			return fmt.Sprintf("%s afterwards, alone, worker %d", r, i)
+		}
+	}
+	return "ok"
+}
+
+// mixBLSManyMessages: overlapping aggregate verifications that each need several batches of pairings (9 to 20 distinct
+// messages and keys per call: scratch memory of the second and later batches that is shared between calls is clobbered
+// only then), valid and invalid aggregates, compared with the verdicts of the same calls made alone
+func mixBLSManyMessages(c *Ctx, g int) string {
+	type job struct {
+		pks  []crypto.PublicKey
+		msgs [][]byte
+		hs   []hash.Hasher
+		agg  crypto.Signature
+		bad  crypto.Signature
+	}
+	h := crypto.NewExpandMsgXOFKMAC128("many-shared")
+	jobs := make([]*job, g)
+	for i := range jobs {
+		n := 9 + (i*5)%12
+		j := &job{}
+		var sigs []crypto.Signature
+		for k := 0; k < n; k++ {
+			sk := skFromInt(c.randScalar())
+			m := c.bytes(8 + k)
+			s, _ := sk.Sign(m, h)
+			j.pks, j.msgs, j.hs = append(j.pks, sk.PublicKey()), append(j.msgs, m), append(j.hs, h)
+			sigs = append(sigs, s)
+		}
+		j.agg, _ = crypto.AggregateBLSSignatures(sigs)
+		j.bad, _ = crypto.AggregateBLSSignatures(sigs[1:])
+		jobs[i] = j
+	}
+	round := func(j *job) string {
+		ok, err := crypto.VerifyBLSSignatureManyMessages(j.pks, j.agg, j.msgs, j.hs)
+		if err != nil || !ok {
+			return "valid-aggregate-rejected"
+		}
+		ok, err = crypto.VerifyBLSSignatureManyMessages(j.pks, j.bad, j.msgs, j.hs)
+		if err != nil || ok {
+			return "invalid-aggregate-accepted"
+		}
+		return ""
+	}
+	for i, j := range jobs {
+		if r := round(j); r != "" {
+			return fmt.Sprintf("%s alone, worker %d", r, i)
+		}
+	}
+	results := make([]string, g)
+	start := make(chan struct{})
+	var wg sync.WaitGroup
+	for i := 0; i < g; i++ {
+		wg.Add(1)
+		go func(i int) {
+			defer wg.Done()
+			<-start
+			for rep := 0; rep < 4; rep++ {
+				if r := round(jobs[i]); r != "" {
+					results[i] = fmt.Sprintf("%s worker %d", r, i)
+					return
+				}
+			}
+		}(i)
+	}
+	close(start)
+	wg.Wait()
+	for _, r := range results {
+		if r != "" {
+			return r
 		}
 	}
 	return "ok"
